@@ -26,3 +26,6 @@ def run(chk, tier):
         from props import ctor
         ctor.builder_constructors(chk, F, 'R01.0', cfg)
         E.index_is_position(chk, F, 'R01.1.index', cfg)
+        # R01.6 what the accept closure gets from match_inputs is the stored matcher's own verdict on this call's inputs
+        from props.c06 import match_inputs
+        match_inputs(chk, F, 'R01.6', cfg)
